@@ -60,9 +60,10 @@ def prepare(directory: Path, clean: bool = False):
     directory.mkdir(parents=True, exist_ok=True)
 
 
-def execute(command: str | Path, arguments: list[str], working_dir: Path = Path(os.getcwd())) -> int:
+def execute(command: str | Path, arguments: list[str], working_dir: Path = None) -> int:
     cwd = os.getcwd()
-    os.chdir(working_dir)
+    if working_dir is not None:
+        os.chdir(working_dir)
     try:
         if shutil.which(command):
             full_command = f'{command} {" ".join([str(argument) for argument in arguments])}'
